@@ -210,6 +210,10 @@ def nameV (n : String) : V := .tup [(n, .num 0)]
 /-- `finishHash(h, seed)` (repaired) vs. `pre ^ h` (before) -/
 def hfin (rep : Bool) (pre h seed : HV) : HV := if rep then hatom "fin" (.set h) seed else hxor pre h
 
+/-- `ArrayItemTuple.Hash`/`DictEntryTuple.Hash`: the hash of the item/value under the seed derived from the
+index/key, finished under the caller's seed (repaired) vs. returned as it is (before) -/
+def tfin (rep : Bool) (inner seed : HV) : HV := if rep then hatom "fin" (.set inner) seed else inner
+
 def strMemXor (off : Int) : List Int → HV
   | [] => []
   | c :: r => if c < 0 then strMemXor (off + 1) r
@@ -227,8 +231,8 @@ def hashG (rep : Bool) : Rep → HV → HV
   -- hash.Int32(char, hash.Int(at, seed)) / hash.Uint8(byte, hash.Int(at, seed)): one injective atom each
   | .charT ix ch, s => hatom "charT" (.set [.num ix, .num ch]) s
   | .byteT ix b, s => hatom "byteT" (.set [.num ix, .num b]) s
-  | .itemT ix x, s => hashG rep x (hatom "int" (.num ix) s)
-  | .entryT k v, s => hashG rep v (hashG rep k s)
+  | .itemT ix x, s => tfin rep (hashG rep x (hatom "int" (.num ix) s)) s
+  | .entryT k v, s => tfin rep (hashG rep v (hashG rep k s)) s
   | .empty, s => hfin rep s [] s
   | .true_, s => hfin rep s (hfin rep [] (hatom "mapC" (.set []) []) []) s
   | .generic xs, s => hfin rep s (xorList rep xs) s
@@ -251,14 +255,14 @@ def xorList (rep : Bool) : List Rep → HV
   | x :: r => hxor (hashG rep x []) (xorList rep r)
 def xorOpts (rep : Bool) (off : Int) : List (Option Rep) → HV → HV
   | [], _ => []
-  | some x :: r, s => hxor (hashG rep x (hatom "int" (.num off) s)) (xorOpts rep (off + 1) r s)
+  | some x :: r, s => hxor (tfin rep (hashG rep x (hatom "int" (.num off) s)) s) (xorOpts rep (off + 1) r s)
   | none :: r, s => xorOpts rep (off + 1) r s
 def xorDict (rep : Bool) : List (Rep × List Rep) → HV → HV
   | [], _ => []
-  | (k, vs) :: r, s => hxor (xorVals rep vs (hashG rep k s)) (xorDict rep r s)
-def xorVals (rep : Bool) : List Rep → HV → HV
-  | [], _ => []
-  | v :: r, ks => hxor (hashG rep v ks) (xorVals rep r ks)
+  | (k, vs) :: r, s => hxor (xorVals rep vs (hashG rep k s) s) (xorDict rep r s)
+def xorVals (rep : Bool) : List Rep → HV → HV → HV
+  | [], _, _ => []
+  | v :: r, ks, s => hxor (tfin rep (hashG rep v ks) s) (xorVals rep r ks s)
 def xorRows (rep : Bool) (names : List String) : List (List Rep) → HV → HV
   | [], _ => []
   | row :: r, s =>
